@@ -4,7 +4,7 @@ import types
 from fractions import Fraction
 
 from ..runner import Harness
-from ..hutil import L, S, fresh_reals
+from ..hutil import L, S, fresh_ints, fresh_reals
 from .. import msk, mnp, symx
 from ..symx import is_sym
 
@@ -240,7 +240,9 @@ class C06(Harness):
             T, m = (2, 1)
             spec = {}
         inp = {"T": T, "m": m}
-        inp["yt"] = [fresh_reals(ctx, "t%d_" % j, T) for j in range(m)]
+        # count data: an integer-typed truth with real-valued forecasts (for the metric whose error is assembled piecewise)
+        int_truth = kind == "fn" and spec["elem"] == "asym" and bool(ctx.fresh_bool("int_truth"))
+        inp["yt"] = [(fresh_ints if int_truth else fresh_reals)(ctx, "t%d_" % j, T) for j in range(m)]
         inp["yp"] = [fresh_reals(ctx, "p%d_" % j, T) for j in range(m)]
         if kind == "fn":
             if bool(ctx.fresh_bool("weighted")):
